@@ -101,6 +101,10 @@ def setup(ctx):
 
 
 def run(ctx):
+    if ctx.shard == 0:  # the repository's own pinned examples as one more workload (outcomes ignored)
+        from ..repotests import run_repo_tests
+
+        run_repo_tests(ctx, ("marker",))
     import dep_logic.specifiers as S
     from dep_logic.markers import parse_marker
 
@@ -139,6 +143,11 @@ def run(ctx):
 
 
 def replay(ctx, case):
+    if isinstance(case, dict) and case.get("kind") == "repo-test":
+        from ..repotests import run_repo_tests
+
+        run_repo_tests(ctx, nodeid=case["nodeid"])
+        return
     import dep_logic.specifiers as S
     from dep_logic.markers import parse_marker
 
